@@ -128,9 +128,7 @@ pub fn total_balance(p: &Plain) -> num_bigint::BigUint {
     }
     s
 }
-pub fn big(u: U256) -> num_bigint::BigUint {
-    num_bigint::BigUint::from_bytes_be(&u.to_be_bytes::<32>())
-}
+pub use crate::lattice::big;
 
 pub const MAINNET_SPECS: [SpecId; 19] = [
     SpecId::FRONTIER,
